@@ -9,10 +9,16 @@ negative: `DecoOk` = stage-1 `PStyle.DecoOk` in paragraphs and blocks, and for a
 could shrink the bottom space); that hypothesis is gone: `paginate_line_fits` is the full-strength statement, and
 `Witness.C01Col.container_negative_margin_fits` is the regression theorem on the former counterexample.
 
+`container_after_span_fits` is the strict complement for the exemption "first line of a column box": a column box
+that follows a spanning block in the same container fragment was laid out with `page_is_empty = False`, so ALL its
+lines fit, the first one included (the class of the seeded change C03-2: `columns_layout` no longer clearing
+`page_is_empty` after a spanning block).
+
 `lh` maps a paragraph id to its line height (paragraph fragments do not record it); `LhOk lh box` says it agrees
 with the source — any document with distinct paragraph ids has such an `lh`.
 -/
 import WpModel.Lemmas.ColGeo
+import WpModel.Lemmas.ColGeoStrict
 
 namespace Wp.C03GeoCol
 open Wp Wp.PM Wp.PMC
@@ -212,5 +218,36 @@ example : (match paginateCol exDoc 30 with
       (6, 0, 30, false)],
      [(3, 0, 4, true), (3, 1, 0, true), (5, 0, 17, false), (5, 1, 27, false)]] := by
   decide +kernel
+
+/-! ### no exemption for the columns that follow a spanning block -/
+
+/-- **Columns after a spanning block fit entirely.** For every `block_level_layout` call on a multi-column
+container (any columns, spans, heights, break values; `DecoOk` as above): in the returned fragment, every line of
+every column box that comes after a spanning block ends above `pageBottom − bs` — `afterSpan` marks none of them
+exempt. -/
+theorem container_after_span_fits (lh : Nat → Rat) (id : Nat) (st : PStyle) (cs : ColSpec) (flags : List Bool)
+    (kids : List ColBox) (hd : PMC.DecoOk (.columns id st cs flags kids))
+    (hl : LhOk lh (.columns id st cs flags kids))
+    (c : CCtx) (idx : Nat) (y bs : Rat) (skip : Option Resume) (cb pie : Bool) (adjL : List Rat) (f : CFrag)
+    (hf : (PMC.layoutBox c (.columns id st cs flags kids) idx y bs skip cb pie adjL).frag = some f) :
+    ∀ l ∈ PMC.afterSpan lh f.kids false, l.exempt = true ∨ c.overflowsPage bs (l.y + l.lineH) = false :=
+  PMC.container_after_span_fits lh id st cs flags kids hd hl c idx y bs skip cb pie adjL f hf
+
+/-- Non-vacuity: a group, a spanning block cut by the page, a group (40px pages).  On page 2 the rest of the
+spanning block takes 30px; the two columns after it hold one line each, bottom at 40 = the page bottom, and these
+lines are not exempt. -/
+def exSpan : CDoc :=
+  { pageH := 40, rootLtr := true,
+    root := .block 9 { exSt with isRoot := true } [.block 8 exSt
+      [.columns 7 exSt { count := 2, balance := true, ltr := true, width := 192 } [false, true, false]
+        [.para 6 2 10 exSt,
+         .block 5 exSt [.para 1 2 10 exSt, .para 2 4 10 exSt],
+         .para 3 4 10 exSt]]] }
+
+example : (match paginateCol exSpan 30 with
+    | .ok ps => ps.map (fun (p : CPage) =>
+        ((p.root.kids.flatMap CFrag.kids).flatMap fun (f : CFrag) => PMC.afterSpan (fun _ => 10) f.kids false).map
+          fun (l : PlacedLine) => (l.para, l.line, l.y + l.lineH, l.exempt))
+    | _ => []) = [[], [(3, 0, 40, false), (3, 1, 40, false)], []] := by decide +kernel
 
 end Wp.C03GeoCol
